@@ -65,6 +65,18 @@ func (r *RoutingTable) verifyRoutingTable(id uint64, table map[uint64]*route) er
 	if r.config.PartitionCount != uint64(len(table)) {
 		return fmt.Errorf("invalid partition count: %d", len(table))
 	}
+
+	// The table is applied partition by partition. Check all of it before touching anything:
+	// an unknown partition id, a missing route or a route without a primary owner must
+	// not reach the partitions.
+	for partID, data := range table {
+		if partID >= r.config.PartitionCount {
+			return fmt.Errorf("invalid partition id: %d", partID)
+		}
+		if data == nil || len(data.Owners) == 0 {
+			return fmt.Errorf("no primary owner for partition id: %d", partID)
+		}
+	}
 	return nil
 }
 
